@@ -45,6 +45,7 @@ func (c13) Nontrivial(c *sim.Case, st *sim.Stats) bool {
 
 func (c13) Gen(r *sim.Rand, c *sim.Case, tier string) {
 	g := world.NewGen(r)
+	g.Extra = true
 	g.Alpha = []int{0, 4}
 	g.Fam = world.FBody | world.FStyle | world.FList | world.FNote | world.FTable | world.FTableFmt
 	if r.Bool() {
@@ -94,6 +95,7 @@ func (c13) Gen(r *sim.Rand, c *sim.Case, tier string) {
 	}
 	if r.Chance(0.3) { // interfering document: the registries are shared (C07's finding), id closure must hold all the same
 		g2 := world.NewGen(r.Fork())
+		g2.Extra = true
 		g2.Fam = world.FBody | world.FList | world.FNote
 		ops = interleave(r, ops, sprinkleSaves(r, g2.DocOps(1, r.Range(2, 8)), 1, 5, 0.2, 0))
 	}
